@@ -51,6 +51,33 @@ func init() {
 
 func (p propC04) ID() string { return p.id }
 
+// varsRead: the variables the program reads — mentioned as operands, or looked
+// up by a `probe` operator the program calls.
+func varsRead(w *World) []string {
+	vars := referencedVars(w.Prog)
+	for _, o := range w.Cfg.Ops {
+		if o.Kind != "probe" {
+			continue
+		}
+		called, have := false, false
+		w.Prog.Walk(func(x *Node) {
+			if x.K == KOp && x.Name == o.Name {
+				called = true
+			}
+		})
+		for _, v := range vars {
+			if v == o.Var {
+				have = true
+			}
+		}
+		if called && !have {
+			vars = append(vars, o.Var)
+			sort.Strings(vars)
+		}
+	}
+	return vars
+}
+
 func referencedVars(n *Node) []string {
 	seen := map[string]bool{}
 	n.Walk(func(x *Node) {
@@ -86,6 +113,16 @@ func (p propC04) Gen(r *Rng, tier string) *World {
 		k.NOps = r.Range(1, 3)
 	}
 	g := NewGen(r, k)
+	if len(g.C.Vars) > 0 && r.P(0.2) {
+		// an operator that looks a variable up by itself and hands back DNE when
+		// the store does not have it yet (a sub-rule's TryEval wrapped in an
+		// operator): not available is not available, wherever it comes from
+		v := g.C.Vars[r.Intn(len(g.C.Vars))]
+		if v.Ty == TBool || v.Ty == TInt || v.Ty == TStr {
+			g.C.Ops = append(g.C.Ops, OpSpec{Name: "lookup_it", Kind: "probe", Ret: v.Ty, Arity: 0, Var: v.Name})
+			g.ob[v.Ty] = append(g.ob[v.Ty], len(g.C.Ops)-1)
+		}
+	}
 	w := &World{Prop: p.id}
 	// bias towards programs that mention several variables
 	best := g.Program()
@@ -210,7 +247,7 @@ func (p propC04) Gen(r *Rng, tier string) *World {
 		return w
 	}
 	// timeline
-	vars := referencedVars(w.Prog)
+	vars := varsRead(w)
 	if len(vars) == 0 {
 		w.EnumSplits = true
 		return w
@@ -296,7 +333,7 @@ func (pr propC04) Run(w *World, st *Stats) *Violation {
 	wh := w.Hash()
 	st.World(wh)
 	full := &w.Calls[0]
-	vars := referencedVars(w.Prog)
+	vars := varsRead(w)
 	tyOf := map[string]Ty{}
 	for _, v := range w.Cfg.Vars {
 		tyOf[v.Name] = v.Ty
